@@ -3,7 +3,7 @@ variant reaches its own persist function (which has a storage effect, C16), erro
 Response::Error, apply is deterministic, RaftNode::write applies before acknowledging."""
 from ..cfg import Body
 from ..report import where, Ctx
-from . import c16
+from . import c16, c18
 
 LEVEL = "other"
 NONDET = ("rand::", "getrandom", "std::env::", "uuid::", "std::thread::current", "std::process::id")
@@ -32,6 +32,8 @@ class _Collect:
     def __init__(self):
         self.bad = {}
         self.good = set()
+        self.early = {}
+        self.anchors = []
         self.assumptions = []
     def rule(self, *a): pass
     def saw_fn(self, *a): pass
@@ -44,7 +46,9 @@ class _Collect:
     def violation(self, rule, inst, where_, msg):
         if rule in ("R16b", "R16e", "R16d"):
             self.bad[inst.split("|")[0]] = msg
-    def anchor_failure(self, *a): pass
+        if rule == "R18b" and "dominates writes=False" in msg:
+            self.early[inst.split("|")[0]] = msg
+    def anchor_failure(self, *a): self.anchors.append(" ".join(str(x) for x in a))
 
 
 def run(ctx, F, cg):
@@ -66,6 +70,13 @@ def run(ctx, F, cg):
     variants = [v["name"] for v in adt["variants"]]
     col = _Collect()
     c16.run(col, F, cg)
+    for a_ in col.anchors:
+        ctx.anchor_failure("R32b", "shared C16 analysis: " + a_)
+    ctx.rule("R32e", "a refused request has no storage effect: where a persist function can refuse (the tenant quota reservation of the creation paths), the refusal dominates its WAL and storage writes — otherwise the request is answered Response::Error while every replica recovers its effect (verdict shared with C18 R18b, dominance part only)")
+    col18 = _Collect()
+    c18.run(col18, F, cg)
+    for a_ in col18.anchors:
+        ctx.anchor_failure("R32e", "shared C18 analysis: " + a_)
     seen = {}
     nmut = 0
     wild = False
@@ -110,6 +121,10 @@ def run(ctx, F, cg):
         else:
             # follow thin wrappers
             ctx.ok("R32b", inst, "%s has a storage effect on every acknowledged path (C16)" % fn)
+        if fn in col18.early:
+            ctx.violation("R32e", "%s|%s|write-before-refusal" % (fn, v), where(F.fns[persists[0]]), "%s writes to the WAL / storage before the tenant manager has accepted the request: a refused %s is answered with an error but is recovered on every replica" % (fn, v))
+        elif fn in ("persist_create_node", "persist_create_edge"):
+            ctx.ok("R32e", inst, "the reservation dominates the writes of %s" % fn)
     missing = [v for v in variants if v not in seen]
     if missing and not wild:
         ctx.note("variants without explicit arm: %s" % missing)
